@@ -35,6 +35,11 @@ def make_pool(rng, tag):
         k = rng.randrange(16)
         cons.append(rng.choice([claripy.ULT(a, k), a == b, a != k, claripy.SLE(a, b), claripy.Or(a == k, b == k), claripy.UGE(a, b), p, claripy.Not(p),
                                 claripy.And(a > 1, a < 14), (a & 3) == (k & 3)]))
+    # formulas for is_true / is_false (indices >= 16): ones only the Z3 rewriter decides, ones nothing cheap decides
+    for _ in range(8):
+        a, b = rng.choice(exprs), rng.choice(exprs)
+        cons.append(rng.choice([a + b == b + a, a + 1 == a, claripy.ULE(a & b, a), (a ^ b) != (b ^ a), claripy.UGE(a | b, b), a * 2 == a + a,
+                                claripy.ULT(a, b), a == b + 1]))
     return exprs, cons
 
 
@@ -43,7 +48,7 @@ def gen_history(rng, exprs, cons, n):
     for _ in range(n):
         r = rng.random()
         if r < 0.3:
-            h.append(("add", rng.randrange(len(cons))))
+            h.append(("add", rng.randrange(16)))
         elif r < 0.4:
             h.append(("satisfiable",))
         elif r < 0.6:
@@ -56,8 +61,10 @@ def gen_history(rng, exprs, cons, n):
             h.append(("solution", rng.randrange(len(exprs)), rng.randrange(16)))
         elif r < 0.93:
             h.append(("simplify",))
-        elif r < 0.97:
+        elif r < 0.96:
             h.append(("branch",))
+        elif r < 0.985:
+            h.append(("truth", rng.randrange(len(cons))))
         else:
             h.append(("build", rng.randrange(len(exprs)), rng.randrange(len(exprs))))
     return h
@@ -87,6 +94,8 @@ def run_history(cls, exprs, cons, hist):
                 s.simplify(); out.append("ok")
             elif op[0] == "branch":
                 s = s.branch(); out.append("ok")
+            elif op[0] == "truth":
+                out.append((s.is_true(cons[op[1]]), s.is_false(cons[op[1]])))
             elif op[0] == "build":
                 e = (exprs[op[1]] + exprs[op[2]]) ^ exprs[op[1]]
                 out.append((e.length, tuple(sorted(e.variables)), e.depth))
